@@ -1,21 +1,26 @@
-"""Device-write model: the two connection classes' set-value callbacks are *interpreted* (vlib.absint) on a model
-connection whose pack type, config version and log version are pairwise distinct, with a model send path that
-captures the request handed to it.  The datagram each path emits is compared, byte for byte, with what the
-command builder produces when every field is passed *by parameter name* - so the obligation speaks about which
-value reaches which field of the device write, not about how the call is spelled.
+"""Device-write model: the connection classes' command callbacks (set-value, key press) are *interpreted*
+(vlib.absint) on a model connection whose pack type, config version and log version are pairwise distinct, with a
+model send path that captures the request handed to it.  The datagram each path emits is compared, byte for byte,
+with what the command builder produces when every field is passed *by parameter name* - so the obligation speaks
+about which value reaches which field of the device write, not about how the call is spelled (positional or
+keyword arguments, a helper in between, a thunk).
 
-  device_writes(ctx, repo, rule)   blocking == awaitable == builder(seq, pack_type=, config_version=, log_version=, pos, len, data)
+  device_writes(ctx, repo, rule, kinds=False)   set-value: blocking == awaitable == builder(seq, pack_type=, config_version=,
+                                                log_version=, pos, len, data); kinds=True also checks the sequence kind drawn
+  key_presses(ctx, repo, rule)                  key press: blocking == awaitable == builder(seq, pack_type=, key=)
 """
 from __future__ import annotations
 
-from .absint import ClassRef, Closure, Interp, Native, Obj, PyRaise, Undecided
+from .absint import Closure, Interp, Native, Obj, PyRaise, Undecided
 from .core import AnalysisError
 
-BUILDER = ("GeckoPackCommandProtocolHandler", "set_value")
-SITES = (("GeckoSpa", "_on_set_value", "blocking"), ("GeckoAsyncSpa", "_on_async_set_value", "awaitable"))
+HANDLER = "GeckoPackCommandProtocolHandler"
+SET_SITES = (("GeckoSpa", "_on_set_value", "blocking"), ("GeckoAsyncSpa", "_on_async_set_value", "awaitable"))
+KEY_SITES = (("GeckoSpa", "press", "blocking"), ("GeckoAsyncSpa", "async_press", "awaitable"))
 IDENT = {"pack_type": 7, "config_version": 11, "log_version": 13}
 PARMS = ("10.1.2.3", 10022, b"SPA-ID", b"IOS-CLIENT")
-SEQ = 201
+SEQ = 201          # what the model counter issues for the command kind
+SEQ_PROTOCOL = 9   # ... and for the protocol kind (only when kinds are told apart)
 
 
 def _bytes_of(interp, h):
@@ -25,92 +30,109 @@ def _bytes_of(interp, h):
         raise AnalysisError(f"send_bytes of the captured request: {e}")
 
 
-def _emit(repo, cname, mname, pos, length, value):
-    """interpret one set-value callback; returns the list of datagrams handed to the send path"""
+def _emit(repo, cname, mname, args, kinds):
+    """interpret one command callback; returns (datagrams handed to the send path, kinds drawn, destinations)"""
     interp = Interp(repo, max_depth=10)
-    sent = []
+    sent, drawn, dests = [], [], []
 
     def counter(a, k):
-        return SEQ  # the kind drawn is C16's business; here every draw gives the same number
+        kind = a[0] if a else k.get("command")
+        drawn.append(kind)
+        return SEQ if (not kinds or kind is True) else SEQ_PROTOCOL
 
-    def take(h):
+    def take(a):
+        h = a[0]
         if isinstance(h, Closure):
             h = h([], {})
         sent.append(_bytes_of(interp, h))
+        dests.append(a[1] if len(a) > 1 else None)
         return h
 
     proto = Obj(None, {"get_and_increment_sequence_counter": Native(counter, "counter"),
-                       "get": Native(lambda a, k: take(a[0]), "get"),
-                       "queue_send": Native(lambda a, k: take(a[0]), "queue_send")}, name="protocol")
+                       "get": Native(lambda a, k: take(a[:1]), "get"),
+                       "queue_send": Native(lambda a, k: take(a), "queue_send")}, name="protocol")
     spa = Obj(repo.cls(cname), dict(IDENT), name=cname)   # helper methods a refactoring adds resolve through the class
     spa.attrs.update({"sendparms": PARMS, "_protocol": proto, "is_connected": True, "_is_connected": True, "is_responding_to_pings": True,
                       "get_and_increment_sequence_counter": Native(counter, "counter"),
                       "add_receive_handler": Native(lambda a, k: None, "add_receive_handler"),
-                      "queue_send": Native(lambda a, k: take(a[0]), "queue_send"),
+                      "queue_send": Native(lambda a, k: take(a), "queue_send"),
                       "_event_handler": Native(lambda a, k: None, "_event_handler")})
     fi = repo.method(cname, mname)
     try:
-        interp.call(fi, spa, [pos, length, value])
+        interp.call(fi, spa, list(args))
     except PyRaise as e:
-        return [f"raises {e.what}"]
+        return [f"raises {e.what}"], drawn, dests
     except Undecided as e:
-        raise AnalysisError(f"{cname}.{mname}({pos}, {length}, {value}) on the model connection: {e}")
-    return sent
+        raise AnalysisError(f"{cname}.{mname}{tuple(args)} on the model connection: {e}")
+    return sent, drawn, dests
 
 
-def _reference(repo, pos, length, value):
+def _reference(repo, builder, values):
+    """builder called with the identity fields by name; `values` are the remaining parameters in order (seq first)"""
     interp = Interp(repo, max_depth=10)
-    fi = repo.method(*BUILDER)
+    fi = repo.method(HANDLER, builder)
     params = [a.arg for a in fi.node.args.args]
-    for need in ("pack_type", "config_version", "log_version"):
-        if need not in params:
-            raise AnalysisError(f"{'.'.join(BUILDER)} has no parameter `{need}` - the reference device write cannot be built by name")
-    kw = dict(IDENT)
-    kw["parms"] = PARMS
-    # positional: seq first; pos/len/data are the three parameters after the identity fields
     rest = [p for p in params if p not in IDENT]
-    if len(rest) != 4:
-        raise AnalysisError(f"{'.'.join(BUILDER)} parameters {params}: expected (seq, pack_type, config_version, log_version, pos, len, data)")
-    for name, v in zip(rest, (SEQ, pos, length, value)):
+    used = [p for p in params if p in IDENT]
+    if "pack_type" not in used or len(rest) != len(values):
+        raise AnalysisError(f"{HANDLER}.{builder} parameters {params}: not (seq, pack_type, [config_version, log_version,] ...) with {len(values)} further parameters")
+    kw = {k: IDENT[k] for k in used}
+    kw["parms"] = PARMS
+    for name, v in zip(rest, values):
         kw[name] = v
     try:
         h = interp.call(fi, None, [], kw)
     except PyRaise as e:
         return f"raises {e.what}"
     except Undecided as e:
-        raise AnalysisError(f"{'.'.join(BUILDER)} by keyword: {e}")
+        raise AnalysisError(f"{HANDLER}.{builder} by keyword: {e}")
     return _bytes_of(interp, h)
 
 
-def device_writes(ctx, repo, rule):
-    cases = ((300, 1, 0x5A), (0x0123, 2, 0xBEEF), (1, 2, 0), (0, 1, 255))
+def _compare(ctx, repo, rule, sites, builder, cases, kinds, describe):
     n = 0
-    for pos, length, value in cases:
-        ref = _reference(repo, pos, length, value)
-        bfi = repo.method(*BUILDER)
-        ctx.ob(rule, f"{'.'.join(BUILDER)}::builds::len{length}::{value:#x}", not isinstance(ref, str),
-               f"{'.'.join(BUILDER)}(pos={pos}, len={length}, data={value:#x}) {ref}: a value of the item's domain cannot be written", bfi.loc)
+    for case in cases:
+        ref = _reference(repo, builder, (SEQ,) + tuple(case))
+        bfi = repo.method(HANDLER, builder)
+        ctx.ob(rule, f"{HANDLER}.{builder}::builds::{'-'.join(map(str, case))}", not isinstance(ref, str),
+               f"{HANDLER}.{builder}{tuple(case)} {ref}: a value of the item's domain cannot be sent", bfi.loc)
         if isinstance(ref, str):
-            n += len(SITES)
+            n += len(sites)
             continue
         got = {}
-        for cname, mname, label in SITES:
-            sent = _emit(repo, cname, mname, pos, length, value)
+        for cname, mname, label in sites:
+            sent, drawn, dests = _emit(repo, cname, mname, case, kinds)
             got[label] = sent
             n += 1
             fi = repo.method(cname, mname)
             ctx.ob(rule, f"{cname}.{mname}::one-device-write", len(sent) == 1,
-                   f"{cname}.{mname}({pos}, {length}, {value:#x}) hands {len(sent)} request(s) to the send path, expected exactly one", fi.loc)
+                   f"{cname}.{mname}{tuple(case)} hands {len(sent)} request(s) to the send path, expected exactly one", fi.loc)
             if len(sent) != 1:
                 continue
+            if kinds:
+                ctx.ob(rule, f"{cname}.{mname}::sequence-from-command-counter", drawn == [True],
+                       f"{cname}.{mname}: the command's sequence number is drawn with kind(s) {drawn}, expected exactly one draw of the command kind (True): "
+                       f"a pack command must carry a number of the command range", fi.loc)
+                ctx.ob(rule, f"{cname}.{mname}::addressed", all(d is None or d == PARMS for d in dests),
+                       f"{cname}.{mname}: the command is queued for {dests}, not for the connection's own peer {PARMS}", fi.loc)
             ctx.ob(rule, f"{cname}.{mname}::device-write-fields", sent[0] == ref,
-                   f"{cname}.{mname}(pos={pos}, length={length}, value={value:#x}) on a connection with pack type {IDENT['pack_type']}, config version {IDENT['config_version']}, "
+                   f"{cname}.{mname}({describe(case)}) on a connection with pack type {IDENT['pack_type']}, config version {IDENT['config_version']}, "
                    f"log version {IDENT['log_version']} emits {sent[0]!r}; the command builder called with those fields by name gives {ref!r} - "
-                   f"a field of the device write carries another value than the connection's (the spa checks the versions and ignores or mis-applies the write)",
-                   fi.loc, sample={"rule": rule, "site": f"{cname}.{mname}", "case": [pos, length, value], "emitted": repr(sent[0])})
+                   f"a field of the command carries another value than the connection's / the caller's (the spa checks type and versions and ignores or mis-applies it)",
+                   fi.loc, sample={"rule": rule, "site": f"{cname}.{mname}", "case": list(case), "emitted": repr(sent[0])})
         if all(len(v) == 1 for v in got.values()):
-            ctx.ob(rule, f"blocking-vs-awaitable::pos{pos}-len{length}", got["blocking"] == got["awaitable"],
-                   f"the blocking path emits {got['blocking'][0]!r}, the awaitable path {got['awaitable'][0]!r} for the same accessor write ({pos}, {length}, {value:#x})",
-                   repo.method(SITES[0][0], SITES[0][1]).loc)
-    ctx.count(f"{rule}:set-value callbacks interpreted", n)
-    ctx.floor(rule, "set-value callbacks interpreted", n, 2 * len(cases))
+            ctx.ob(rule, f"{builder}::blocking-vs-awaitable::{'-'.join(map(str, case))}", got["blocking"] == got["awaitable"],
+                   f"the blocking path emits {got['blocking'][0]!r}, the awaitable path {got['awaitable'][0]!r} for the same request {describe(case)}",
+                   repo.method(sites[0][0], sites[0][1]).loc)
+    ctx.count(f"{rule}:{builder} callbacks interpreted", n)
+    ctx.floor(rule, f"{builder} callbacks interpreted", n, len(sites) * len(cases))
+
+
+def device_writes(ctx, repo, rule, kinds=False):
+    cases = ((300, 1, 0x5A), (0x0123, 2, 0xBEEF), (1, 2, 0), (0, 1, 255))
+    _compare(ctx, repo, rule, SET_SITES, "set_value", cases, kinds, lambda c: f"pos={c[0]}, length={c[1]}, value={c[2]:#x}")
+
+
+def key_presses(ctx, repo, rule, kinds=True):
+    cases = ((1,), (16,), (23,), (255,))
+    _compare(ctx, repo, rule, KEY_SITES, "keypress", cases, kinds, lambda c: f"keypad={c[0]}")
